@@ -1633,6 +1633,11 @@ func (cs *ConsensusState) ValidateBlock(block *types.Block) error {
 		return err
 	}
 
+	// The header commits to the validator set of this height; nothing else compares the two.
+	if !bytes.Equal(block.ValidatorsHash, s.Validators.Hash()) {
+		return fmt.Errorf("Wrong Block.Header.ValidatorsHash.  Expected %X, got %X", s.Validators.Hash(), block.ValidatorsHash)
+	}
+
 	if err := block.ValidateCommit(); err != nil {
 		return err
 	}
